@@ -245,6 +245,96 @@ pub fn fault_case(dir: &std::path::PathBuf, word: &[usize], leave_after: Option<
     (steps, None)
 }
 
+/// A good reply (after the fault word) that arrives while the client already talks to `j` peers it is
+/// interested in, j around and above the dial budget of 11: A0..A10 come from the first announce,
+/// B0..B3 from the second (made while nobody had sent a bitfield yet), then j of them send a full
+/// bitfield; A9 leaves and the third announce (faults, then good) lists R0..R2. The client must
+/// survive, keep serving, dial min(3, max(0, 11 - j)) of the listed peers at once and the others as
+/// connections end.
+pub fn budget_case(dir: &std::path::PathBuf, j: usize, word: &[usize], verbose: bool) -> (u64, Option<(&'static str, String)>) {
+    let t = Torrent::new("t", 5, &[("f", 15)], true);
+    let cfgs: Vec<_> = (0..18).map(|i| peer_cfg(i, true)).collect();
+    let mut script = vec![TrackerOutcome::Good((0..=10).collect()), TrackerOutcome::Good((11..=14).collect())];
+    script.extend(word.iter().map(|f| FAULTS[*f].clone()));
+    script.push(TrackerOutcome::Good(vec![15, 16, 17]));
+    let mut w = FullWorld::new(&t, &cfgs, script, TrackerOutcome::Good(vec![15, 16, 17]), dir);
+    let mut steps = 1u64;
+    let hs = |w: &FullWorld, i: usize| refwire::encode(&refwire::handshake(t.meta.info_hash(), &w.peers[i].cfg.id));
+    let desc = |w: &FullWorld| format!("announces={} connects={:?} session={}", w.announces.borrow().len(), w.peers.iter().map(|p| p.connects).collect::<Vec<_>>(), w.session_key());
+    if (0..=10).any(|i| w.peers[i].connects != 1) {
+        return (steps, Some(("MACHINERY", format!("first announce did not lead to 11 connections: {}", desc(&w)))));
+    }
+    for i in 0..=10 {
+        let b = hs(&w, i);
+        w.step(&FEv::Feed(i, b));
+        steps += 1;
+    }
+    w.step(&FEv::Close(10));
+    steps += 1;
+    if (11..=14).any(|i| w.peers[i].connects != 1) {
+        return (steps, Some(("MACHINERY", format!("second announce did not lead to 4 more connections: {}", desc(&w)))));
+    }
+    for i in 11..=14 {
+        let b = hs(&w, i);
+        w.step(&FEv::Feed(i, b));
+        steps += 1;
+    }
+    let senders: Vec<usize> = (0..=8).chain(11..=14).take(j).collect();
+    for i in &senders {
+        w.step(&FEv::Feed(*i, refwire::encode(&Msg::Bitfield(vec![0xe0]))));
+        steps += 1;
+    }
+    let interested = w.snap().map(|s| s.peers.iter().filter(|p| p.am_interested).count()).unwrap_or(0);
+    if interested != j {
+        return (steps, Some(("MACHINERY", format!("{} interesting peers instead of {}: {}", interested, j, desc(&w)))));
+    }
+    // A9 leaves: no candidates are left, the client announces a third time
+    w.step(&FEv::Close(9));
+    steps += 1;
+    for _ in 0..word.len() {
+        w.step(&FEv::Advance(1000));
+        steps += 1;
+    }
+    w.step(&FEv::Advance(5000));
+    steps += 1;
+    if verbose {
+        println!("after the third announce: {}", desc(&w));
+    }
+    if !w.panics.is_empty() {
+        return (steps, Some(("panic-on-good-reply-with-many-connections", format!("{} interesting connections: {:?}", j, w.panics))));
+    }
+    if let Some(h) = &w.hung {
+        return (steps, Some(("hang-on-good-reply-with-many-connections", format!("{} interesting connections: {}", j, h))));
+    }
+    if !w.session_alive() {
+        return (steps, Some(("session-ended", desc(&w))));
+    }
+    // still serving: peer 0 unchokes us and the manager records it in that very step
+    w.step(&FEv::Feed(0, refwire::encode(&Msg::Unchoke)));
+    steps += 1;
+    let seen = w.snap().and_then(|s| s.peers.iter().find(|p| p.addr == w.peers[0].cfg.addr).map(|p| p.choked));
+    if seen != Some(false) {
+        return (steps, Some(("session-stops-serving-connections-while-tracker-fails", format!("after the good reply with {} interesting connections peer 0's Unchoke was not processed (choked={:?})", j, seen))));
+    }
+    let want = 3usize.min(11usize.saturating_sub(j));
+    let dialled = (15..=17).filter(|i| w.peers[*i].connects > 0).count();
+    if dialled != want {
+        return (steps, Some(("listed-peers-not-contacted-after-recovery", format!("{} interesting connections, good reply lists 3 new peers: {} dialled at once, the budget of 11 allows {}: {}", j, dialled, want, desc(&w)))));
+    }
+    // connections end one at a time: each frees a slot for one listed peer
+    for i in [1usize, 2, 3] {
+        w.step(&FEv::Close(i));
+        steps += 1;
+    }
+    if !w.panics.is_empty() {
+        return (steps, Some(("panic-on-good-reply-with-many-connections", format!("{:?}", w.panics))));
+    }
+    if (15..=17).any(|i| w.peers[i].connects != 1) {
+        return (steps, Some(("listed-peers-not-contacted-after-recovery", format!("{} interesting connections at the time of the reply; after three connections ended the listed peers are still not all contacted exactly once: {}", j, desc(&w)))));
+    }
+    (steps, None)
+}
+
 fn fault_words(max_n: usize, all_upto: usize) -> Vec<Vec<usize>> {
     let mut words: Vec<Vec<usize>> = vec![vec![]];
     let mut level: Vec<Vec<usize>> = vec![vec![]];
@@ -269,7 +359,7 @@ fn fault_words(max_n: usize, all_upto: usize) -> Vec<Vec<usize>> {
 }
 
 fn fault_part(ctx: &Ctx) -> (u64, u64, Vec<Value>) {
-    let words = fault_words(ctx.tier.pick(70, 100), ctx.tier.pick(3, 4));
+    let words = fault_words(ctx.tier.pick(70, 100), ctx.tier.pick(3, 5));
     // every fault word alone, and with the extra peer leaving after each prefix of <= 3 failures
     // the good reply lists P (still connected), Q (left) and R (new): in every order for the short
     // words (candidates are taken from the end of the list), in one order for the long ones
@@ -308,8 +398,32 @@ fn fault_part(ctx: &Ctx) -> (u64, u64, Vec<Value>) {
             }
         }
     }
+    let mut bcases: Vec<(usize, Vec<usize>)> = vec![];
+    for j in 7..=13usize {
+        for word in [vec![], vec![0], vec![2, 3], vec![1, 0, 3]] {
+            bcases.push((j, word));
+        }
+    }
+    let bres = core::par_map(
+        &bcases,
+        |w| {
+            core::set_quiet_panics(true);
+            core::private_cwd("c19", &format!("b{}", w))
+        },
+        |dir, _, (j, word)| budget_case(dir, *j, word, false),
+    );
+    for ((j, word), (n, v)) in bcases.iter().zip(bres.iter()) {
+        steps += n;
+        if let Some((class, why)) = v {
+            if *class == "MACHINERY" {
+                ctx.machinery_error(why.clone());
+            } else {
+                ctx.violation(class, why.clone(), json!({"kind": "budget", "interesting": j, "word": word}));
+            }
+        }
+    }
     let samples = vec![json!({"tracker_outcomes": ["Good[P,Q]", "Refused", "Http500", "Good[P,Q,R]"], "peer_events": "P: handshake+bitfield+unchoke; Q: handshake, close; after each failure P toggles choke"})];
-    (cases.len() as u64, steps, samples)
+    ((cases.len() + bcases.len()) as u64, steps, samples)
 }
 
 /// Deep nesting goes through the recursive decoder: probe in subprocesses (a stack overflow aborts).
@@ -333,7 +447,7 @@ fn nesting_probe(ctx: &Ctx) -> Vec<Value> {
 }
 
 pub fn run(ctx: &Ctx) -> Outcome {
-    let max_len = ctx.tier.pick(6, 7);
+    let max_len = ctx.tier.pick(6, 8);
     let accs = strings::for_all(max_len, || 0u64, |acc, s| {
         *acc += 1;
         if let (_, Some((class, summary))) = check_reply(s) {
@@ -365,7 +479,7 @@ pub fn run(ctx: &Ctx) -> Outcome {
     o.set("fault_sequences", json!(fault_runs));
     o.set("evaluations", json!(sigma + docs.len() as u64));
     o.set("distinct_nontrivial", json!(accepted));
-    o.set("rule", json!(format!("(a) every string over the C16 alphabet of length 0..={} through TrackerResp::from_bencode (totality); structured replies = peers list of 0..3 entries drawn from 11 entry shapes (2 good, 9 malformed) or missing/ill-typed x 5 interval shapes x 5 failure-reason shapes (absent, text, empty, non-UTF-8, ill-typed), all distinct; non-trivial = structured replies read as success. (b) full-session world (real event_loop, tracker task, retry loop, handle_tracker_cmd, spawn_peer_handler over the seams): tracker outcome words F^n.S for every F-word of length <= 3 (thorough 4) over the four fault kinds (refused, HTTP 500, garbage body, failure reason) and the four homogeneous words for every longer n up to 70 (thorough 100), with a live connection P, each word alone and with another connection ending after 0..2 failures (a KillReq in the middle of the fault sequence); after every failure P toggles choke/unchoke and the manager must have processed it in that quiescent step; after S the listed peers must be contacted; states = fault words, transitions = events executed", max_len)));
+    o.set("rule", json!(format!("(a) every string over the C16 alphabet of length 0..={} through TrackerResp::from_bencode (totality); structured replies = peers list of 0..3 entries drawn from 11 entry shapes (2 good, 9 malformed) or missing/ill-typed x 5 interval shapes x 5 failure-reason shapes (absent, text, empty, non-UTF-8, ill-typed), all distinct; non-trivial = structured replies read as success. (b) full-session world (real event_loop, tracker task, retry loop, handle_tracker_cmd, spawn_peer_handler over the seams): tracker outcome words F^n.S for every F-word of length <= 3 (thorough 4) over the four fault kinds (refused, HTTP 500, garbage body, failure reason) and the four homogeneous words for every longer n up to 70 (thorough 100), with a live connection P, each word alone and with another connection ending after 0..2 failures (a KillReq in the middle of the fault sequence); after every failure P toggles choke/unchoke and the manager must have processed it in that quiescent step; after S the listed peers must be contacted; budget cases: the good reply (after 0..3 faults) arrives while 7..=13 connected peers are interesting (15 connections from two earlier announces): no panic or hang, still serving, min(3, max(0, 11 - j)) of the 3 listed peers dialled at once and the others exactly once as three connections end; states = fault words, transitions = events executed", max_len)));
     o.set("sigma_strings", json!(sigma));
     o.set("structured_replies", json!(docs.len()));
     let picks = ctx.seeded_pick(docs.len(), 4);
@@ -381,6 +495,21 @@ pub fn run(ctx: &Ctx) -> Outcome {
 pub fn replay(_ctx: &Ctx, r: &Value) -> i32 {
     if r["kind"] == "nest" {
         return crate::c16::replay(_ctx, r);
+    }
+    if r["kind"] == "budget" {
+        let word: Vec<usize> = r["word"].as_array().unwrap().iter().map(|x| x.as_u64().unwrap() as usize).collect();
+        let dir = core::private_cwd("c19", "replay");
+        core::set_quiet_panics(true);
+        return match budget_case(&dir, r["interesting"].as_u64().unwrap() as usize, &word, true).1 {
+            Some((class, why)) => {
+                println!("VIOLATION property=C19 replay=<this file>\n  class={} {}", class, why);
+                1
+            }
+            None => {
+                println!("holds for this case");
+                0
+            }
+        };
     }
     if r["kind"] == "faults" {
         let word: Vec<usize> = r["word"].as_array().unwrap().iter().map(|x| x.as_u64().unwrap() as usize).collect();
